@@ -31,8 +31,22 @@ C09_swallowing_display_refuted).  So every fault kind x position x place x mode 
 display on (and the other options drawn at random), each such case next to its TWIN - the same call with the default
 options - and all of them are judged by the same c09_case_held against the same scenario; from_random gets a fault
 position of its own (a generator whose k-th draw fails).
+
+THE PRE-EXISTING STATE OF THE CACHE PATH is a concrete thing: absent, a regular file, a symbolic link, or a directory
+with a listing.  "Is a catalog cache" = a real directory whose listing holds patch_ids.bin (Model/FailStop.v: entry,
+fspath, is_cache, guard_marker; C09_cache_is_marker).  Every state of props/c09_driver.py:PATH_STATES - an empty
+directory, user files merely CALLED patch_..., empty patch_N/ sub-directories, the remains of an interrupted creation
+(patch data, no marker), a directory whose sub-directory is a catalog, the marker alone, the marker next to foreign
+files, a valid catalog next to foreign files, a regular file, links to a catalog / to directories without the marker /
+to a file / to nothing - is met with overwrite on and off, sequentially and in parallel, by clean and by faulting
+creations (and through from_file / from_random), with the cache path lying alone in its directory or inside a
+directory of the user's own (`nest`).  All cases are judged by c09_case_path: the model runs on the abstract state of
+the listing (C09_path_checker_plain: same flags as c09_case_held wherever the path has one reading); a link has two
+admissible readings (refused, as the code does - C09_link_path_kept - or followed); flag 11 = nothing outside the
+cache path was modified.  C09_non_cache_path_kept: behind any guard that implies the marker every other existing path
+stays and the call raises; C09_name_guard_deletes / _refuted: a guard that goes by the names of the entries deletes
+every marker-less directory whose entries are all called patch_... (the empty one included).
 """
-import hashlib
 import json
 import os
 import re
@@ -63,7 +77,19 @@ TRUSTED = [
 ASSUMPTIONS = [
     "records are compared by the bit pattern of their float64 fields (input degrees -> np.deg2rad on the harness side)",
     "a directory 'opens as a catalog' iff yaw.Catalog(path, max_workers=1) does not raise",
-    "'untouched' = identical recursive listing and SHA-1 of every file before the call and after it (or after the kill)",
+    "'untouched' = identical recursive listing and SHA-1 of every file (symbolic links as links; for a link at the cache "
+    "path also what it points to; for a directory at the cache path also its inode and permission bits) before the call "
+    "(taken by the driver right before it calls) and after it (or after the kill)",
+    "'is a catalog cache' = the path is a real directory and its listing holds patch_ids.bin (the file CatalogWriter.finalize "
+    "writes last and read_patch_ids requires; docs: overwrite = 'whether to overwrite an existing catalog at the given cache "
+    "location'); the names / number of the other entries and anything deeper down do not count; a marker without patch data "
+    "IS a cache (it may be overwritten, it need not be)",
+    "a symbolic link at the cache path: the statement does not say whether it is followed; both readings are admitted "
+    "(refused and everything kept, which is what the code does; or the thing pointed to is treated as the path), so a link "
+    "to a valid catalog with overwrite may be refused or overwritten, a link to anything else existing must be kept together "
+    "with what it points to",
+    "the cache path inside a directory of the user's own: modifying or deleting anything of that directory besides the cache "
+    "entry counts as deleting (part of) an existing directory that is not a catalog cache",
     "what an opened path holds: HPre = opens and untouched; HNew = opens, was modified, and the records of every patch "
     "(bit patterns) are exactly the input partitioned as a successful creation partitions it; HOther = opens otherwise "
     "(including data that cannot be loaded); the old catalog's patches are labels 101.. in the model",
@@ -77,6 +103,10 @@ RULE = ("cases = (source, n, chunksize, workers, patch mode, fault kind, fault c
         "sequential creation with default options)")
 
 HEADER = "From Verif Require Import Prelude FailStop.\nOpen Scope nat_scope.\n"
+# states of the cache path explored by path_block (besides absent / the plain catalogs)
+PATH_BLOCK_STATES = ["dir_empty", "dir_patchfiles", "dir_patchdirs", "dir_remains", "dir_holds_catalog", "dir_other", "file",
+                     "dir_marker_only", "dir_marker_foreign", "catalog_foreign",
+                     "link_catalog", "link_dir_other", "link_dir_empty", "link_patchfiles", "link_file", "link_dangling"]
 PY = "/venv/bin/python"
 DRIVER = os.path.join(os.path.dirname(os.path.abspath(__file__)), "c09_driver.py")
 REPO_SRC = os.environ.get("VERIF_REPO_SRC", "/repo/src")
@@ -89,7 +119,7 @@ JOBS = 10
 def base_spec(**kw):
     s = dict(n=14, cs=5, workers=1, nthreads=4, source="df", patch="centers", ncent=3, weights=True, redshifts=True,
              fault=dict(kind="none", chunk=0, col="w"), empty_centre=False, pre="absent", overwrite=False, dseed=1,
-             opts=None)
+             opts=None, nest=False)
     s.update(kw)
     o = dict(drv.DEFAULT_OPTS)
     o.update(s["opts"] or {})
@@ -318,12 +348,12 @@ def specs(ctx):
             add(RND, workers=workers, shape=(80, 30), patch="num", opts=dict(draw_opts(), probe_size=rng.choice([20, 80])))
         add(workers=rng.choice(workers_list), shape=shape(), source="hdf5", patch="num", opts=dict(draw_opts(), probe_size=30))
 
-    def over_fault(kind, pos, workers, old, overwrite, shp=None, opts=None):
-        """a fault of the given kind / position while the target holds a valid catalog of `old` size"""
+    def over_fault(kind, pos, workers, old, overwrite, shp=None, opts=None, **more):
+        """a fault of the given kind / position while the target is in the pre-existing state `old`"""
         shp = shp or rng.choice(OVER_SHAPES)
         nch = -(-shp[0] // shp[1])
         chunk = {"first": 0, "middle": nch // 2, "last": nch - 1}[pos]
-        kw = dict(shape=shp, workers=workers, pre=old, overwrite=overwrite, opts=opts)
+        kw = dict(shape=shp, workers=workers, pre=old, overwrite=overwrite, opts=opts, **more)
         if kind == "value":
             kk, col = rng.choice(VALUE_FAULTS)
             add(fault=dict(kind=kk, chunk=chunk, col=col), patch=rng.choice(["centers", "name"]), **kw)
@@ -338,6 +368,48 @@ def specs(ctx):
             add(fault=dict(kind=kind, chunk=0, col="ra"), patch=rng.choice(["centers", "name"]), **kw)
         else:
             raise ValueError(kind)
+
+    def path_block(workers_list, full):
+        """the pre-existing state of the cache path x overwrite on / off x sequential / parallel x clean / faulting
+        creation (fault kind and position rotate; `full`: every fault kind), through from_dataframe mostly and
+        from_file / from_random in turn; the cache path alone in its directory or inside a directory of the user's
+        own (nest).  What has to happen is decided by the listing alone: marker -> a cache (overwrite allowed);
+        anything else that exists -> raise and keep; a link -> refused or followed."""
+        par_ws = [w for w in workers_list if w > 1]
+        faults = OVER_FAULTS + ["final", "final_late"]
+        sources = ("df", "df", "hdf5", "df", "random", "df", "df", "hdf5")
+        k, q, si, pi = rng.randrange(len(faults)), rng.randrange(2), rng.randrange(len(sources)), rng.randrange(3)
+
+        def clean(state, ow, workers, nest, source):
+            if source == "random":
+                add(RND, shape=(80, 30), workers=workers, pre=state, overwrite=ow, nest=nest)
+            else:
+                add(workers=workers, source=source, shape=rng.choice(OVER_SHAPES), patch=rng.choice(["centers", "name"]),
+                    pre=state, overwrite=ow, nest=nest, opts=draw_opts() if rng.random() < 0.25 else None)
+
+        for state in PATH_BLOCK_STATES:
+            for ow in (True, False):
+                modes = workers_list if full else [1, rng.choice(par_ws)]
+                for j, workers in enumerate(modes):
+                    clean(state, ow, workers, rng.random() < 0.35, sources[si % len(sources)])
+                    si += 1
+                    if full:
+                        for kind in faults:
+                            over_fault(kind, rng.choice(positions), workers, state, ow, nest=rng.random() < 0.35)
+                    elif (j + q) % 2 == 0:
+                        over_fault(faults[k % len(faults)], positions[pi % 3], workers, state, ow, nest=rng.random() < 0.35)
+                        k += 1
+                        pi += 1
+                q += 1
+        # the cache path inside a directory of the user's own: a fresh creation, the overwrite of a valid catalog and a
+        # refused one leave everything else in that directory alone, clean or faulting
+        for workers in (workers_list if full else [1, rng.choice(par_ws)]):
+            add(workers=workers, shape=shape(), patch=rng.choice(["centers", "name"]), nest=True)
+            add(workers=workers, shape=shape(), patch=rng.choice(["centers", "name"]), pre=rng.choice(OLD_SIZES), overwrite=True, nest=True)
+            over_fault(faults[k % len(faults)], positions[pi % 3], workers, rng.choice(OLD_SIZES), True, nest=True)
+            reader_fault(rng.choice(["value", "worker"]), positions[(pi + 1) % 3], workers, shp=rng.choice(OVER_SHAPES), nest=True)
+            k += 1
+            pi += 1
 
     positions = ["first", "middle", "last"]
     if ctx.quick():
@@ -386,6 +458,7 @@ def specs(ctx):
                 fault=dict(kind="nan", chunk=2, col=rng.choice(["ra", "w"])))
         options_block([1, par()], full=False)
         table_block([1, par()], full=False)
+        path_block([1, par()], full=False)
         return out
     # ---- thorough: the full grid
     for workers in (1, 2, 3):
@@ -451,6 +524,7 @@ def specs(ctx):
         add(workers=workers, fault=dict(kind="final_late", chunk=0, col="ra"))
     options_block([1, 2, 3], full=True)
     table_block([1, 2, 3], full=True)
+    path_block([1, 2, 3], full=True)
     return out
 
 
@@ -487,51 +561,22 @@ def scenario(spec):
         # the centres are computed from a first pass over the whole reader (create_patch_centers -> get_probe):
         # the reader fault strikes there, before the writer exists
         fault, early = None, True
-    if spec["pre"] in drv.CATALOG_PRES:
-        return fault, "(old_catalog %s)" % fq.nat(drv.old_npatch(spec)), early
-    pre = {"absent": "TAbsent", "noparent": "TNoParent", "parentfile": "TNoParent", "file": "TFile",
-           "dir_other": "(TDir true [] false)", "dir_empty": "(TDir false [] false)",
-           "catalog_other": "(TDir false [101; 102] true)"}[spec["pre"]]
-    return fault, pre, early
+    return fault, drv.path_term(spec), early       # the path as a concrete thing (fspath): listing / file / link
 
 
 def scen_term(spec):
     fault, pre, early = scenario(spec)
     ft = "None" if fault is None else "(mk_fault %s %s %s)" % (fault[0], fq.nat(fault[1]), fault[2])
     # patch_num: whether a centre is left without any object is decided by the centres the k-means step produced
-    return "(mk_scen %s %s %s %s %s %s)" % (fq.nat(nchunks(spec)), ft, pre, fq.b(spec["overwrite"]), fq.b(early),
-                                            fq.b(spec["empty_centre"] or bool(spec.get("kmeans_empty"))))
+    # the abstract pre-state is derived from the concrete path inside c09_case_path (TAbsent here is a placeholder)
+    return "(mk_scen %s %s TAbsent %s %s %s) %s" % (fq.nat(nchunks(spec)), ft, fq.b(spec["overwrite"]), fq.b(early),
+                                                  fq.b(spec["empty_centre"] or bool(spec.get("kmeans_empty"))), pre)
 
 
 # ----------------------------------------------------------------------------- running one case
-def sha(path):
-    h = hashlib.sha1()
-    with open(path, "rb") as f:
-        h.update(f.read())
-    return h.hexdigest()
-
-
-def snapshot(path):
-    if not os.path.lexists(path):
-        return "ABSENT"
-    if not os.path.isdir(path):
-        return ["FILE", sha(path)]
-    out = {}
-    for root, dirs, files in os.walk(path):
-        rel = os.path.relpath(root, path)
-        for d in dirs:
-            out[os.path.normpath(os.path.join(rel, d)) + "/"] = "DIR"
-        for f in files:
-            out[os.path.normpath(os.path.join(rel, f))] = sha(os.path.join(root, f))
-    return out
-
-
 def snap_case(spec):
-    base = os.path.dirname(spec["cache"])
-    s = {"cache": snapshot(spec["cache"])}
-    if spec["pre"] in ("noparent", "parentfile"):
-        s["parent"] = snapshot(base)
-    return s
+    """JSON-normalised, so that it compares with what the driver wrote down before the call"""
+    return json.loads(json.dumps(drv.snap_case(spec)))
 
 
 def group_ticks(pgid):
@@ -593,7 +638,7 @@ def run_one(workdir, idx, spec):
             res["detail"] = "no READY within %.0f s / driver died: %s" % (READY_S, open(log_path).read()[-1500:])
             return res
         t1 = time.time()
-        res["before"] = snap_case(spec)
+        res["before"] = json.load(open(out_path + ".before"))      # taken by the driver right before the call
         # ---- the bounded creation call
         deadline, extensions = t1 + HANG_S, 0
         while True:
@@ -707,7 +752,7 @@ def classify_return(spec, res):
             got = {int(p): sorted(tuple(r) for r in v) for p, v in recs.items()}
             if got != exp_part:
                 kind = "ROther"
-    elif spec["pre"] in drv.CATALOG_PRES and allrows == drv.foreign_records(drv.old_npatch(spec)):
+    elif spec["pre"] in drv.OLD_CATALOG_PRES and allrows == drv.foreign_records(drv.old_npatch(spec)):
         kind = "RForeign"
     centres_ok = True
     if spec["patch"] == "centers" and kind == "RSame":
@@ -756,7 +801,7 @@ def held_by_path(spec, untouched, opens):
     if allrows == exp_rows and (exp_part is None or recs == exp_part):
         return "HNew", how + ": exactly the complete input"
     exp_set, old_set = set(exp_rows), set()
-    if spec["pre"] in drv.CATALOG_PRES:
+    if spec["pre"] in drv.OLD_CATALOG_PRES + ("dir_remains",):
         old_set = set(drv.foreign_records(drv.old_npatch(spec)))
     n_new = sum(1 for r in allrows if r in exp_set)
     n_old = sum(1 for r in allrows if r in old_set)
@@ -790,6 +835,10 @@ def signatures(spec, code, obs_kind, held="HClosed", held_how=""):
         shape = "random-table-nonfinite"
     shape += osfx
     sigs = []
+    noncache = spec["overwrite"] and spec["pre"] in drv.NONCACHE_PRES
+    noncache_sig = "c09-overwrite-deletes-non-catalog" + ("" if spec["pre"] == "dir_other" else ":" + spec["pre"])
+    noncache_what = "an existing path that is not a catalog cache (%s: %s, no patch_ids.bin in a real directory)" % (
+        spec["pre"], drv.path_term(spec))
     if code & 4:
         if par and place in ("InReader", "InWorker") and not early:
             sigs.append(("c09-parallel-main-exception-hang", "never returns (killed after the time bound)"))
@@ -801,18 +850,18 @@ def signatures(spec, code, obs_kind, held="HClosed", held_how=""):
             sigs.append(("c09-parallel-writer-error-lost-foreign-catalog", "returns the pre-existing catalog of other data"))
         elif spec["empty_centre"] and spec["fault"]["kind"] == "none" and spec["pre"] == "absent" and obs_kind == "RSame":
             sigs.append(("c09-empty-centre-no-error", "returns a catalog (centres shifted onto the wrong patches) instead of raising"))
-        elif plain and spec["overwrite"] and spec["pre"] in ("dir_other", "dir_empty") and obs_kind == "RSame":
-            sigs.append(("c09-overwrite-deletes-non-catalog", "returns after deleting a directory that is not a catalog cache"))
+        elif plain and noncache and obs_kind == "RSame":
+            sigs.append((noncache_sig, "returns a catalog after deleting " + noncache_what))
         elif obs_kind == "RSame" or spec["fault"]["kind"] == "gentable":
             sigs.append(("c09-returned-instead-of-raise:%s:%s" % (shape, mode), "returns a catalog although the call has to raise"))
         else:
             sigs.append(("c09-returned-other-data:%s:%s" % (shape, mode), "returns a catalog that does not hold the input"))
     if code & 16:
-        if spec["overwrite"] and spec["pre"] in ("dir_other", "dir_empty") and spec["fault"]["kind"] == "none":
-            sigs.append(("c09-overwrite-deletes-non-catalog", "deletes a directory that is not a catalog cache"))
+        if noncache:
+            sigs.append((noncache_sig, "deletes / modifies " + noncache_what))
         else:
             sigs.append(("c09-preexisting-modified:%s:%s" % (shape, mode), "modifies the pre-existing path it has to leave untouched"))
-    over = spec["pre"] in drv.CATALOG_PRES and spec["overwrite"]
+    over = spec["pre"] in drv.OLD_CATALOG_PRES and spec["overwrite"]
     if code & 32:
         if over and held in ("HOther", "HNew"):
             sigs.append(("c09-failed-overwrite-leaves-openable-catalog:%s:%s" % (fshape, mode),
@@ -832,7 +881,15 @@ def signatures(spec, code, obs_kind, held="HClosed", held_how=""):
         else:
             sigs.append(("c09-failed-creation-path-holds-%s:%s:%s" % (held, fshape if spec["fault"]["kind"] != "none" else shape, mode),
                          "fails and Catalog(path) afterwards %s" % held_how))
-    return sigs
+    if code & 2048:
+        sigs.append(("c09-modifies-outside-cache-path:%s:%s" % (fshape if spec["fault"]["kind"] != "none" else shape, mode),
+                     "modifies / deletes entries of the directory the cache path lies in that are not the cache path"))
+    seen, uniq = set(), []
+    for sig, what in sigs:
+        if sig not in seen:
+            seen.add(sig)
+            uniq.append((sig, what))
+    return uniq
 
 
 def describe(spec):
@@ -849,7 +906,8 @@ def describe(spec):
         parts.append("a centre without any object")
     if spec.get("kmeans_empty"):
         parts.append("the k-means step left a centre without any object (%s)" % spec.get("kmeans_note"))
-    parts.append("target=%s overwrite=%s" % (spec["pre"], spec["overwrite"]))
+    parts.append("target=%s%s overwrite=%s" % (spec["pre"], " (inside a directory of the user's own)" if spec.get("nest") else "",
+                                              spec["overwrite"]))
     o = spec["opts"]
     parts.append("progress=%s degrees=%s chunksize keyword=%s%s" % (
         o["progress"], o["degrees"], {"same": spec["cs"], "none": "omitted", "over": spec["n"] + 3}[o["cs_pass"]],
@@ -894,7 +952,12 @@ def _run(ctx):
                 continue
             spec["kmeans_empty"] = ke
             spec["kmeans_note"] = ke_how
-        untouched = res["before"] == res["after"]
+        cache_same = res["before"]["cache"] == res["after"]["cache"]
+        around_same = res["before"]["around"] == res["after"]["around"]
+        if spec["pre"] in ("noparent", "parentfile"):      # the path does not exist and cannot: what stays is its surroundings
+            untouched, around = cache_same and around_same, True
+        else:
+            untouched, around = cache_same, around_same
         opens, opens_how = opens_as_catalog(spec["cache"])
         obs_kind = None
         if res["class"] == "returned":
@@ -906,18 +969,22 @@ def _run(ctx):
             ob = "OHang"
         par = spec["workers"] > 1
         held, held_how = held_by_path(spec, untouched, opens)
-        terms.append("c09_case_held %s %s %s %s %s %s" % (fq.b(par), scen_term(spec), ob, fq.b(untouched), fq.b(opens), held))
+        terms.append("c09_case_path %s %s %s %s %s %s %s" % (fq.b(par), scen_term(spec), ob, fq.b(untouched), fq.b(opens), held,
+                                                            fq.b(around)))
+        if spec["pre"] in PATH_BLOCK_STATES or spec.get("nest"):
+            ctx.bump("path-state:%s%s:%s:%s:%s" % (spec["pre"], "+nested" if spec.get("nest") else "", "overwrite" if spec["overwrite"] else "keep",
+                                                   "par" if par else "seq", "clean" if spec["fault"]["kind"] == "none" else "fault"))
         ctx.bump("path-afterwards:" + held)
-        if spec["pre"] in drv.CATALOG_PRES and spec["fault"]["kind"] != "none":
+        if spec["pre"] in drv.OLD_CATALOG_PRES and spec["fault"]["kind"] != "none":
             ctx.bump("fault-over-catalog:%s:%s:%s" % (spec["pre"], "overwrite" if spec["overwrite"] else "keep", "par" if par else "seq"))
         obs = dict(outcome=res["class"], returned=obs_kind, exception=res.get("exc_type"), message=res.get("exc_msg"),
-                   untouched=untouched, opens_afterwards=opens, opens_detail=opens_how, path_holds=held, path_holds_detail=held_how,
+                   untouched=untouched, surroundings_untouched=around, opens_afterwards=opens, opens_detail=opens_how, path_holds=held, path_holds_detail=held_how,
                    elapsed=round(res.get("elapsed", 0), 2),
                    before=res["before"] if not untouched else "(same as after)", after=res["after"])
         meta.append((idx, spec, obs, obs_kind))
         fault, pre, early = scenario(spec)
         nd = nondefault_opts(spec)
-        nontrivial = par or fault is not None or early or spec["pre"] != "absent" or spec["empty_centre"] or bool(nd)
+        nontrivial = par or fault is not None or early or spec["pre"] != "absent" or spec["empty_centre"] or bool(nd) or bool(spec.get("nest"))
         for lab in nd:
             ctx.bump("option:" + lab.split("/")[0])
         if nd and spec["fault"]["kind"] != "none":
@@ -965,7 +1032,7 @@ def _run(ctx):
             t = obs_of[twin_of[idx]]
             replay["same_call_with_default_options"] = {k: v for k, v in t.items() if k not in ("before", "after")}
             tw = " [this call: %s; the same call with the default options: %s]" % (outcome_text(obs), outcome_text(t))
-        if c & 2 or c & 512:
+        if c & 2 or c & 512 or c & 2048:
             for sig, what in signatures(spec, c, obs_kind, obs["path_holds"], obs["path_holds_detail"]):
                 ctx.fail(sig, "%s: %s%s" % (describe(spec), what, tw), replay, case=idx)
         if c & 1 or c & 256:
@@ -973,6 +1040,9 @@ def _run(ctx):
         if c & 1024:
             ctx.obligation("observation-consistent:case_%03d" % idx, False, "opens=%s untouched=%s held=%s" % (
                 obs["opens_afterwards"], obs["untouched"], obs["path_holds"]))
+        if c & 4096:
+            ctx.obligation("untouched-path-opens-as-its-listing-says:case_%03d" % idx, False, "pre=%s opens=%s untouched=%s" % (
+                spec["pre"], obs["opens_afterwards"], obs["untouched"]))
     ctx.extra["working_tree_follows"] = follows
     ctx.log("model followed by the working tree: %s" % follows)
     for sub in os.listdir(ctx.workdir):
